@@ -246,7 +246,8 @@ PROPS = {
 PROPS["C19"] = dict(
     gens=[("codec", gen.gen_C19, 1.0), ("edge-values", gen.gen_C19_edges, 0.7), ("forest-entry", gen.gen_C19_forest, 0.7)], quick=8, thorough=120, uses_gen=True,
     rule="one script = ~2500 codec queries: boundary integers, all 512 sign/exponent classes with mantissa "
-         "corner patterns, denormals, infinities, NaNs, random 32-bit patterns; distinct_nontrivial counts "
+         "corner patterns, denormals, infinities, NaNs, random 32-bit patterns; edge-value scripts; forest-entry "
+         "scripts (createConstant with boundary and far-out longs on integer forests); distinct_nontrivial counts "
          "distinct (kind,input) queries whose handle is not 0",
     level_text="Proved over the definitions REGENERATED from src/terminal.h on every run (clang AST -> Gallina): "
                "round trip, injectivity, zero handle, non-positive handles and overflow rejection for all "
